@@ -80,6 +80,9 @@ def make_query(name: str, arity: int, position: str) -> str:
         if name in ("ldexp", "scalbn", "scalbln") and arity == 2:
             args[1] = "2"
         return f"ds.Select(lambda e: {name}({', '.join(args)}))"
+    if position == "hdr":
+        # the plain call, in a query that also carries an inject_code block asking for the same header in the HEADER file
+        return f'ds.Select(lambda e: e.Muons("muons").Select(lambda m: {name}({", ".join(arg_exprs(name, arity))})))'
     if position == "deref" and name != "nan":
         # the argument is a method reached through a dereference (declared with deref_count 1: emitted as (*obj)->dpt()): the
         # whole of it is the function's argument
@@ -121,6 +124,8 @@ def query_code_of(backend: str, files: Dict[str, Any]) -> Tuple[str, str]:
 def run_trace(backend: str, name: str, arity: int, position: str):
     src = make_query(name, arity, position)
     md = None
+    if position == "hdr":
+        md = [{"metadata_type": "inject_code", "name": "fv_hdr", "header_includes": ["cmath", "vector"], "private_members": ["double m_fv_scale = std::sqrt(2.0);"]}]
     if position == "deref":
         from .. import qgen as _qg
         md = [{"metadata_type": "add_method_type_info", "type_string": _qg.Universe(backend).colls["Muons"][1], "method_name": "dpt",
@@ -181,7 +186,7 @@ def check(tier: str, seed: int, t0: float, build: core.BuildStatus) -> int:
             audit = [[n, "?", [], "false", []] for n in parse_readme()]
         except Exception:  # noqa: BLE001
             audit = []
-    positions = ["alone", "arith", "intarg", "literal", "nested", "first", "pair", "shadow", "deref"]
+    positions = ["alone", "arith", "intarg", "literal", "nested", "first", "pair", "shadow", "deref", "hdr"]
     smodel = core.Model() if build.model_ok else None
     distinct = set()
     per_name: Dict[str, Dict[str, Any]] = {}
@@ -199,7 +204,7 @@ def check(tier: str, seed: int, t0: float, build: core.BuildStatus) -> int:
                 oc.evaluations += 1
                 distinct.add(src)
                 status["traces"] += 1
-                replay = {"kind": "trace", "backend": backend, "name": name, "query": src, "model_row": row, "resolved_as": qualified}
+                replay = {"kind": "trace", "backend": backend, "name": name, "query": src, "model_row": row, "resolved_as": qualified, "position": pos}
                 if r[0] == "error":
                     oc.violations.append(core.Violation(
                         key=f"c12:rejected:{name}", what=f"documented math function {name} is refused on {backend}: {r[1]}: {r[2][:120]}",
@@ -319,6 +324,8 @@ def replay(path: str, build: core.BuildStatus) -> int:
         print("proof status now:", ps.broken or "all theorems check")
         return 1 if ps.broken else 0
     md = None
+    if data.get("position") == "hdr":
+        md = [{"metadata_type": "inject_code", "name": "fv_hdr", "header_includes": ["cmath", "vector"], "private_members": ["double m_fv_scale = std::sqrt(2.0);"]}]
     if "m.dpt()" in data["query"]:
         from .. import qgen as _qg
         md = [{"metadata_type": "add_method_type_info", "type_string": _qg.Universe(data["backend"]).colls["Muons"][1], "method_name": "dpt",
@@ -340,6 +347,9 @@ def replay(path: str, build: core.BuildStatus) -> int:
         inner = call_args(text, want[0])
         print("arguments of", want[0], ":", inner)
         cut = not any("dpt()" in x and x.count("(") == x.count(")") for x in inner)
+    if '#include "cmath"' not in text and "#include <cmath>" not in text:
+        print("the generated main file does not include cmath")
+        cut = True
     if not want or name in KNOWN_UNUSABLE or cut:
         print(f"VIOLATION property={PID} replay={path}")
         return 1
